@@ -165,3 +165,8 @@ Proof.
     + split; [intros V H; inversion H; reflexivity|kill].
 Qed.
 End Agree.
+
+Lemma variants_line_up_pf :
+  vr_detect_default variant_pinned = bundle_default pinned_mode /\
+  vr_detect_default variant_repaired = bundle_default (mkMode true true).
+Proof. split; reflexivity. Qed.
